@@ -75,7 +75,7 @@ def cover(txs):
 
 
 def run_c02(ctx):
-    k = 24 if ctx.quick else 300
+    k = 60 if ctx.quick else 300
     rows, txs, abi, trace = run_wire(ctx, "C02", k)
 
     def mut(bad):
@@ -102,7 +102,7 @@ def run_c02(ctx):
 
 
 def run_c03(ctx):
-    k = 24 if ctx.quick else 300
+    k = 60 if ctx.quick else 300
     rows, txs, abi, trace = run_wire(ctx, "C03", k)
 
     def mut(bad):
